@@ -98,7 +98,8 @@ def ref_merge(base, child):
 
 
 def bounds(tier):
-    return {"law_max_nodes": 4 if tier == "thorough" else 3, "law_leaves": LEAVES if tier == "thorough" else [1, True, None], "law2_max_nodes": 2, "law2_leaves": LEAVES + [0, False, 0.0, [1], [True]], "equiv_formats": ["json", "yaml", "xml", "bson", "pickle"] if tier == "thorough" else ["json", "yaml"],
+    return {"law_max_nodes": 4 if tier == "thorough" else 3, "law_leaves": [1, True, None],
+            "law3_max_nodes": 3 if tier == "thorough" else None, "law3_leaves": LEAVES, "law2_max_nodes": 2, "law2_leaves": LEAVES + [0, False, 0.0, [1], [True]], "equiv_formats": ["json", "yaml", "xml", "bson", "pickle"] if tier == "thorough" else ["json", "yaml"],
             "equiv_leaf_values": ["absent", "v1", "v2"], "equiv_variants": VARIANTS}
 
 
@@ -111,6 +112,9 @@ def jobs(tier):
     n = 32 if tier == "thorough" else 8
     for c in range(n):
         out.append({"name": "law/%02d" % c, "kind": "law", "n": b["law_max_nodes"], "leaves": b["law_leaves"], "part": c, "parts": n})
+    if b["law3_max_nodes"]:
+        for c in range(32):
+            out.append({"name": "law3/%02d" % c, "kind": "law", "n": b["law3_max_nodes"], "leaves": b["law3_leaves"], "part": c, "parts": 32})
     for c in range(4):
         out.append({"name": "law2/%02d" % c, "kind": "law", "n": b["law2_max_nodes"], "leaves": b["law2_leaves"], "part": c, "parts": 4})
     for fmt in b["equiv_formats"]:
